@@ -1,4 +1,58 @@
 import IslaVerif.Model.SemPreds
+import IslaVerif.Proofs.C20
+/-
+C20 — library semantic predicates decide their documented relation on concrete (closed) trees.
+`posVal b ds` (Proofs/C20.lean) is the positional value Σ dᵢ·b^(n-1-i) of a digit list.
+-/
 namespace IslaVerif.C20
-theorem placeholder : True := trivial
+open IslaVerif.SemPreds
+
+/-- count holds exactly when the needle occurs the given number of times -/
+theorem countVerdict_iff (occ : Nat) (target : Int) : countVerdict occ target = true ↔ (occ : Int) = target :=
+  countVerdict_iff' occ target
+
+/-- octal_to_decimal (both arguments concrete) holds exactly when the octal digits denote the decimal number -/
+theorem octalBoth_iff (o d : List Nat) : octalBoth o d = true ↔ posVal 8 o = posVal 10 d := octalBoth_iff' o d
+
+/-- the explicit loop of the "concrete octal" branch computes the base-8 value -/
+theorem octSum_eq (ds : List Nat) : octSum ds = posVal 8 ds := octSum_eq' ds
+
+/-- the decimal string proposed for a concrete octal denotes the same number -/
+theorem octalToDec_correct (o : List Nat) : posVal 10 (octalToDec o) = posVal 8 o := octalToDec_correct' o
+
+/-- the octal string proposed for a concrete decimal denotes the same number and uses octal digits only -/
+theorem decToOctal_correct (d : List Nat) : posVal 8 (decToOctal d) = posVal 10 d ∧ ∀ x ∈ decToOctal d, x < 8 :=
+  decToOctal_correct' d
+
+/-- digit generation (`str(n)`, `oct(n)[2:]`) is inverted by positional evaluation, in every base ≥ 2 -/
+theorem valDigits_toDigits (b n : Nat) (hb : 2 ≤ b) : valDigits b (toDigits b n) = n := valDigits_toDigits' b n hb
+
+/-- crop holds exactly when the argument fits the width; otherwise the replacement is the cropped argument -/
+theorem crop_true_iff (s : List Char) (w : Nat) : cropM s w = .verdict true ↔ s.length ≤ w := crop_true_iff' s w
+theorem crop_replace (s out : List Char) (w : Nat) (h : cropM s w = .replace out) :
+    out = s.take w ∧ out.length = w ∧ w < s.length := crop_replace' s out w h
+
+/-- the justify predicates hold exactly when the argument already has the requested width -/
+theorem just_true_iff (lj cr : Bool) (s : List Char) (w : Nat) (c : Char) :
+    justM lj cr s w c = .verdict true ↔ s.length = w := just_true_iff' lj cr s w c
+
+/-- they answer False exactly for an argument that is too long and may not be cropped -/
+theorem just_false_iff (lj cr : Bool) (s : List Char) (w : Nat) (c : Char) :
+    justM lj cr s w c = .verdict false ↔ (cr = false ∧ w < s.length) := just_false_iff' lj cr s w c
+
+/-- every proposed replacement has exactly the requested width and is the padded / cropped argument -/
+theorem just_replace (lj cr : Bool) (s out : List Char) (w : Nat) (c : Char)
+    (h : justM lj cr s w c = .replace out) :
+    out.length = w ∧
+    (s.length < w →
+      (lj = true → out = s ++ List.replicate (w - s.length) c) ∧
+      (lj = false → out = List.replicate (w - s.length) c ++ s)) ∧
+    (w < s.length → cr = true ∧ (lj = true → out = s.take w) ∧ (lj = false → out = s.drop (s.length - w))) :=
+  just_replace' lj cr s out w c h
+
+/-! non-vacuity -/
+example : octalBoth [1, 7] [1, 5] = true ∧ octalBoth [1, 5] [1, 7] = false := by decide
+example : octalToDec [0, 1, 7] = [1, 5] ∧ decToOctal [1, 5] = [1, 7] := by decide
+example : justM false true "abc".toList 2 '0' = .replace "bc".toList ∧ justM true false "abc".toList 2 '0' = .verdict false := by decide
+
 end IslaVerif.C20
